@@ -13,7 +13,7 @@ CHECKS.update({
         level="exploration",
         technique="runtime monitor: float64 residual/padding/symmetry/Rayleigh oracle on every observed call of the real inverse-root routines (direct jitted calls on generated PSD matrices and calls tapped inside real optimizer runs)",
         design_ref="DESIGN.md section 4 C01",
-        text="Every call of matrix_inverse_pth_root (Newton, eigh, LOBPCG-deflated) made by the workload is checked in float64: finite, exactly zero padding, symmetric to 8*n*u*kappa, and whenever the reported error is below 0.1 the true residual max|X^p(A+dI)-I| is at most the reported error plus 64*n*p*u*kappa, with d reconstructed from the documented ridge rule (replica of the documented power iteration cross-checked with the reported estimate); reported lambda_max never above the true one. Inputs are sampled inside kappa<=1e8 (1.6k calls quick, ~25k thorough), special families included. Sampling, not proof.",
+        text="Every call of matrix_inverse_pth_root (Newton, eigh, LOBPCG-deflated) made by the workload is checked in float64: finite, exactly zero padding, symmetric to 8*n*u*kappa, and whenever the reported error is below 0.1 the true residual max|X^p(A+dI)-I| is at most the reported error plus 64*n*p*u*kappa, with d reconstructed from the documented ridge rule (replica of the documented power iteration cross-checked with the reported estimate); reported lambda_max never above the true one. Inputs are sampled inside kappa<=1e8 (1.6k calls quick, ~25k thorough), special families included, plus rank-below-k inputs for LOBPCG (fixed regression input of the known finding lobpcg-breakdown-rank-below-k: jax's lobpcg_standard returns NaN eigenpairs, root and error NaN). Sampling, not proof.",
         note="Trusted: NumPy/LAPACK float64 eigvalsh and matrix_power. Float32 inputs only get the structural clauses. Dishonesty smaller than the slack is invisible.",
     ),
     "C06": dict(
@@ -64,8 +64,8 @@ CHECKS.update({
         level="fault_enumeration",
         technique="runtime monitor over fault-injected histories: offline acceptance-gate checker on bitwise state diffs and reported errors, all fault words up to length T enumerated per configuration",
         design_ref="DESIGN.md section 4 C03",
-        text="For each of 192 configurations (threshold x epsilon incl. 0 x Newton/eigh x interval x jit/pmap-quantised/sharded x x64 on/off) plus 72 configurations with other statistic sizes (all 1x1; one 64x64; a padded 1x1 among larger ones) every word of length 3 (thorough: 5, <=3 faults) over {normal, zero, tiny, huge, overflow, NaN, Inf} gradients is replayed through the real compiled update; after every step each stored preconditioner must be bit-identical to before or be installed on a refresh step with a finite reported error strictly below the threshold, must be finite, and moderate histories must give finite updates. 65k words / 77k steps quick, ~185k NaN rejections and ~17k threshold rejections observed.",
-        note="Exhaustive over the stated alphabet/length/configuration grid only; four fixed trees. Two leaks found after a seeding agent's hint (1x1 statistics, -inf error on 64x64 statistics) were repaired in /repo.",
+        text="For each of 192 configurations (threshold x epsilon incl. 0 x Newton/eigh x interval x jit/pmap-quantised/sharded x x64 on/off) plus 72 configurations with other statistic sizes (all 1x1; one 64x64; a padded 1x1 among larger ones), 24 with a 1600-entry leaf, 40 with compressed / frequent-directions / LOBPCG-deflated (top-1; top-2 after one iteration) / warm-started roots and 12 with normalised grafting, every word of length 3 (thorough: 5, <=3 faults) over {normal, zero, tiny, huge, overflow, NaN, Inf} gradients is replayed through the real compiled update; after every step each stored preconditioner must be bit-identical to before or be installed on a refresh step with a finite reported error strictly below the threshold, must be finite, and moderate histories must give finite updates; on fault-free prefixes an installed float64 root is re-verified with the C01 residual oracle against the statistics stored in the same state ('verified' is not taken on trust). 116k words / 135k steps quick, ~185k NaN rejections and ~17k threshold rejections observed.",
+        note="Exhaustive over the stated alphabet/length/configuration grid only; nine fixed trees. Four leaks (1x1 statistics, -inf error on 64x64 statistics, NaN frequent-directions sketch accepted, overflowing graft-norm transplant) were repaired in /repo.",
     ),
 })
 CHECKS.update({
@@ -80,7 +80,7 @@ CHECKS.update({
         level="exploration",
         technique="runtime monitor: closed-form grafting steps from the monitor's own accumulators + reference application of the preconditioner stored in the real state (dense reconstruction of packed / quantised forms)",
         design_ref="DESIGN.md section 4 C05",
-        text="With momentum/weight decay off and lr=1 the returned update is minus the pre-momentum update; per leaf and step it is compared with (a) the closed-form graft step before the start step and for skipped/masked leaves, (b) afterwards: norm equal to the graft step's norm and componentwise equal (within the running error bound) to the stored preconditioner applied to the gradient and rescaled, zero when that is zero. distributed_shampoo graft types 1..6 x {full, compressed +r/-r, FD sketch, int16-quantised, sharded} x shapes rank 1-4 x dense/entry-sparse histories; Tearfree {SGD, RMSProp, AdaFactor, none} x {Shampoo, Sketchy} with masking, preconditioner frequency {1,3} and row-sparse histories (exactly-zero directions observed).",
+        text="With momentum/weight decay off and lr=1 (or a coupled learning rate folded into the graft step, with and without scaled-norm clipping) the returned update is minus the pre-momentum update; per leaf and step it is compared with (a) the closed-form graft step before the start step and for skipped/masked leaves, (b) afterwards: norm equal to the graft step's norm and componentwise equal (within the running error bound) to the stored preconditioner applied to the gradient and rescaled, zero when that is zero. distributed_shampoo graft types 1..6 x {full, compressed +r/-r, FD sketch, int16-quantised, sharded} x shapes rank 1-4 x dense/entry-sparse histories; Tearfree {SGD, RMSProp, AdaFactor, none} x {Shampoo, Sketchy} with masking, preconditioner frequency {1,3} and row-sparse histories (exactly-zero directions observed).",
         note="AdaFactor's closed form is optax.adafactor itself (outside the repository). FD runs with x64 off.",
     ),
 })
@@ -89,8 +89,8 @@ CHECKS.update({
         level="exploration",
         technique="runtime monitor: tree-structure/shape/dtype signature fixed-point checker over generated option combinations, exception classifier (explicit rejection vs internal error), lax.scan carry as a real consumer, sharded declaration cross-check",
         design_ref="DESIGN.md section 4 C07",
-        text="Random combinations of every constructor argument of distributed_shampoo (jit / pmap / sharded), sm3 and tearfree over trees with ranks 0-4 and unit dims are constructed, initialised and updated 4 times: signatures of state (treedef equality + leaf shapes/dtypes) must be a fixed point, updates must mirror the parameters, the step must be accepted as a lax.scan carry, any exception must be an explicit explanatory rejection raised on purpose, and in sharded mode init_fn / shape_and_dtype_fn / pspec_fn must describe the same tree with equal shapes and dtypes. 374 configurations quick (~5000 thorough).",
-        note="The rejection rule is deliberately lenient (documented in dsharness.classify_exception). 11 defects found by this monitor were repaired in /repo (see known_findings.json, status=fixed).",
+        text="Random combinations of every constructor argument of distributed_shampoo (jit / pmap / sharded), sm3 and tearfree over trees with ranks 0-4 and unit dims are constructed, initialised and updated 4 times: signatures of state (treedef equality + leaf shapes/dtypes) must be a fixed point, updates must mirror the parameters, the step must be accepted as a lax.scan carry, any exception must be an explicit explanatory rejection raised on purpose, and in sharded mode init_fn / shape_and_dtype_fn / pspec_fn must describe the same tree with equal shapes and dtypes. 462 configurations quick (~6300 thorough), incl. forced x64+LOBPCG cases and Tearfree trees on the boundary of the blocking validation (every dimension 1x or 2x the block size).",
+        note="The rejection rule is deliberately lenient (documented in dsharness.classify_exception; an assertion message counts as explanatory only with >= 3 alphabetic words). 11 defects found by this monitor were repaired in /repo (see known_findings.json, status=fixed).",
     ),
     "C08": dict(
         level="exploration",
@@ -124,7 +124,7 @@ CHECKS.update({
         level="exploration",
         technique="runtime monitor: step-wise conformance of tearfree updates to an independent float64 reference of the documented chain, plus lr-linearity and merge metamorphic oracles",
         design_ref="DESIGN.md section 4 C15",
-        text="Every update of tearfree(lr, options) over random option combinations (Shampoo under x64 at 1e-7 relative, Sketchy in float32 at 3e-3 on well-separated spectra) is compared with a NumPy float64 model of -lr(t)*momentum(weight_decay(graft(second_order(merge/pad g)))) with per-block 1e-6 eigenvalue cut-off and the frequent-directions root; runs with lr and 2*lr must be doubled to 4 ulps; shapes that merge to the same tensor must deliver the same values.",
+        text="Every update of tearfree(lr, options) over random option combinations (Shampoo under x64 at 1e-7 relative, Sketchy in float32 at 3e-3 on well-separated spectra) is compared with a NumPy float64 model of -lr(t)*momentum(weight_decay(graft(second_order(merge/pad g)))) with per-block 1e-6 eigenvalue cut-off, the frequent-directions root and {none, SGD, RMSProp, AdaFactor} grafting (AdaFactor's step from optax.adafactor itself); runs with lr and 2*lr must be doubled to 4 ulps; shapes that merge to the same tensor must deliver the same values.",
         note="Reference-discontinuity cases (eigenvalue within 2x of the cut-off, no spectral gap at the sketch rank, escaped mass exactly zero) are skipped and counted.",
     ),
 })
